@@ -48,7 +48,7 @@ BOUND = {
     "thorough": "seeds 0..127; histories depth<=3 cold and warm; schedules: all unordered pairs of the 11 driver forms incl. self-pairs, cold and warm, <=1 preemption at the first and last occurrence of every distinct line, and at every line point for the 7 collision-prone pairs (cold); 3-thread one-preemption for 2 triples; 2 preemptions at call granularity for 4 pairs (location-deduplicated)",
 }
 
-BOUND = {k: v + "; plus 9 further driver forms (pulldata in every bind attribute, defaulted range parameters, two untagged languages in either column order, both id columns, four refused forms whose error message lists several things) in the seed sweep, in depth-3 histories among themselves and depth-2 with every driver, in regeneration; re-use: the same workbook object converted 3 times, and alternated with another form" for k, v in BOUND.items()}
+BOUND = {k: v + "; plus 11 further driver forms (or_other with translations and its twin without or_other, pulldata in every bind attribute, defaulted range parameters, two untagged languages in either column order, both id columns, four refused forms whose error message lists several things) in the seed sweep, in depth-3 histories among themselves and depth-2 with every driver, in regeneration; re-use: the same workbook object converted 3 times, and alternated with another form" for k, v in BOUND.items()}
 
 # ------------------------------------------------------------------ driver alphabet -------
 CH = [{"list_name": "c", "name": "x", "label": "X"}, {"list_name": "c", "name": "y", "label": "Y"}]
@@ -126,6 +126,10 @@ XFORMS = {
     "dupid": {"survey": [{"type": "text", "name": "q", "label": "Q"}], "settings": [{"id_string": "x1", "form_id": "x2", "form_title": "T"}],
               "settings_header": [{"id_string": None, "form_id": None, "form_title": None}]},
 }
+# or_other next to translated columns (a warning), and a form with the very same headers but no or_other (no such warning)
+_OTR_CH = [{"list_name": "c", "name": "x", "label::English (en)": "X", "label::French (fr)": "Xf"}, {"list_name": "c", "name": "y", "label::English (en)": "Y", "label::French (fr)": "Yf"}]
+XFORMS["otr"] = {"survey": [{"type": "select_one c or_other", "name": "s", "label::English (en)": "S", "label::French (fr)": "Sf"}], "choices": _OTR_CH}
+XFORMS["otr2"] = {"survey": [{"type": "select_one c", "name": "s", "label::English (en)": "S", "label::French (fr)": "Sf"}], "choices": _OTR_CH}
 # forms that are refused: the message is part of what a caller sees, and it must not depend on the hash seed or the history either
 RFORMS = {
     "badext": {"survey": [{"type": "select_one_from_file cities.txt", "name": "s", "label": "S"}]},
@@ -292,7 +296,9 @@ def dedup_ks(trace, both=False):
     """preemption indices deduplicated by code location: first (and optionally last) occurrence of every distinct line"""
     first, last = {}, {}
     for k, loc in enumerate(trace, 1):
-        key = (loc[0], loc[1])
+        # the same line reached through another caller chain (two frames up) is another point: shared helpers such as the
+        # expression scanner are entered from several places, and only some of them use what a racing thread can clobber
+        key = (loc[0], loc[1], *loc[3:5])
         first.setdefault(key, k)
         last[key] = k
     return sorted(set(first.values()) | (set(last.values()) if both else set()))
@@ -536,20 +542,46 @@ def check_regen(case):
         r = convert(copy.deepcopy(FORMS[case["form"]]))
         sv = r._survey
         out = []
+        wlists = []
         for op in case["ops"]:
             if op == "xml_c":
-                out.append(("c", sv.to_xml(validate=False, pretty_print=False)))
+                w = []
+                out.append(("c", sv.to_xml(validate=False, pretty_print=False, warnings=w)))
+                wlists.append(w)
             elif op == "xml_p":
-                out.append(("p", sv.to_xml(validate=False, pretty_print=True)))
+                w = []
+                out.append(("p", sv.to_xml(validate=False, pretty_print=True, warnings=w)))
+                wlists.append(w)
             elif op == "json":
                 out.append(("j", json.dumps(sv.to_json_dict(), sort_keys=True, default=str)))
             else:
                 out.append(("d", sv.xml().toxml()))
-        return r.xform, out
+        # the same on a survey object that has not generated anything yet (built from the JSON form): first vs later generations
+        from pyxform.builder import create_survey_element_from_dict
 
-    first_x, out = S.in_child(job)
+        sv2 = create_survey_element_from_dict(copy.deepcopy(r._pyxform))
+        fresh = []
+        for _ in range(3):
+            w = []
+            x = sv2.to_xml(validate=False, pretty_print=False, warnings=w)
+            fresh.append((x, w))
+        wlists.append(("fresh", fresh))
+        return r.xform, out, wlists
+
+    first_x, out, wlists = S.in_child(job)
     viol = []
     n = case["form"]
+    # each generation reports its warnings to the list it was given: the same ones every time
+    fresh = wlists.pop()[1]
+    for i, (x, w) in enumerate(fresh[1:], 1):
+        if (x, w) != fresh[0]:
+            part = "xform" if x != fresh[0][0] else "warnings"
+            viol.append((f"regen:{part}-differ-between-generations-of-a-fresh-survey:{n}", f"generation #1 {fresh[0][1]!r} vs #{i + 1} {w!r}"[:300]))
+            break
+    for i, w in enumerate(wlists[1:], 1):
+        if w != wlists[0]:
+            viol.append((f"regen:warnings-differ-between-generations:{n}", f"generation #1 {wlists[0]!r} vs #{i + 1} {w!r}"[:300]))
+            break
     if first_x != R[n][0]:
         viol.append((f"regen:first-differs:{n}", ""))
     seen = {}
